@@ -672,6 +672,10 @@ def run(tier: str, only=None) -> core.Result:
             continue
         out = explorer.explore(ref, cfgs, fidelity=True)
         sched.absorb(res, name, ref, out, cfgs)
+    if not only or "conformance" in only:
+        from . import c12_conf
+
+        c12_conf.add_conformance_part(res, tier)
     res.coverage["exhaustive"] = True
     res.coverage["rule"] = (
         "establishment: 5 endpoint announcement forms, announcement at {0, 0.5, timeout-1us, timeout (both tie orders), "
